@@ -185,3 +185,24 @@ Example exq_nontrivial :
   /\ option_map (fun c => length (c_mirror c)) (find (fun c => N.eqb (c_id c) 0) (w_clients (world_run all_fixed exq empty_world))) = Some 1%nat
   /\ length (sv_tree (w_srv (world_run all_fixed exq empty_world))) = 7%nat.
 Proof. vm_compute. repeat split; reflexivity. Qed.
+
+(* ------------------------------------------------------------------ switching subscriptions inside one BATCH *)
+
+(* the observer 0 replaces "a*" by "ab with v > 3" atomically: SUBSCRIBE: the new one, then unsubscribe the old one, in one
+   BATCH (the client prunes once, after the BATCH); ac drops out of its mirror, ab stays and follows later changes *)
+Definition exb : list event :=
+  [ EAttach 0 1 10; EAttach 1 1 11;
+    ECmd 1 (CSetData 0 [([21], 6); ([22], 2)]);
+    ECmd 0 (CSubscribe false [(Rel [a_star], None)]);
+    ECmd 0 (CBatch [CSubscribe false [(Rel [CLit 21], Some 4)]; CSetData 0 [([30], 1)]; CUnsubscribe [Rel [a_star]]; CSetData 0 [([31], 1)]]);
+    ECmd 1 (CSetData 0 [([21], 9); ([22], 8)]) ].
+
+Example exb_premises : premises_b all_fixed exb 0 = true.
+Proof. vm_compute. reflexivity. Qed.
+
+Example exb_nontrivial :
+  holds_at (world_run all_fixed exb empty_world) 0 [1; 11; 21] = true
+  /\ holds_at (world_run all_fixed exb empty_world) 0 [1; 11; 22] = true
+  /\ option_map (fun c => length (c_mirror c)) (find (fun c => N.eqb (c_id c) 0) (w_clients (world_run all_fixed (firstn 4 exb) empty_world))) = Some 2%nat
+  /\ option_map (fun c => length (c_mirror c)) (find (fun c => N.eqb (c_id c) 0) (w_clients (world_run all_fixed exb empty_world))) = Some 1%nat.
+Proof. vm_compute. repeat split; reflexivity. Qed.
